@@ -125,8 +125,7 @@ class _Cat:
             # a *fresh* equal FrozenDict each time, built in a rotating insertion order:
             # equal-but-not-identical arguments (dict equality and hash ignore insertion order)
             items = list(self.fd[v].items())
-            self._rot = getattr(self, "_rot", 0) + 1
-            k = self._rot % len(items) if items else 0
+            k = getattr(self, "call_no", 0) % len(items) if items else 0      # call_no: set per constructor call
             return self.FrozenDict(dict(items[k:] + items[:k]))
         if ty == "dict":
             return {self.A: self.B}
@@ -167,7 +166,8 @@ def _run_history(hist):
     objs = [BeartypeConf()]          # position 0: the default configuration (Init state)
     out = []
     rnd = random.Random(len(hist))
-    for call in hist:
+    for call_no, call in enumerate(hist):
+        cat.call_no = call_no + 1
         kw = call["kw"]
         names = list(kw)
         if call.get("shuffle"):
